@@ -10,7 +10,7 @@ from ..domains import skeleton, skeleton_text
 from ..model import AnalysisError, FunctionInfo
 from ..report import Ob, bad, ok, unresolved
 from . import rule
-from .common import block_classes, kw, method_calls
+from .common import block_classes, kw, method_calls, see_through
 from .store import _assign_parts, _core_functions
 
 GEN_METHODS = ("new_block_name", "new_region_name", "new_var_name")
@@ -496,7 +496,7 @@ def _names_outside_namespace(ctx, fn: FunctionInfo, graph: ast.AST, use: ast.AST
             for c in A.walk_no_nested(f.node):
                 if isinstance(c, ast.Call) and (A.dotted(c.func) or "").split(".")[-1] == "WritableASTBlock":
                     n += 1
-                    nm = kw(c, "name", 0)
+                    nm = see_through(ctx, f, kw(c, "name", 0))
                     okn = isinstance(nm, ast.Call) and isinstance(nm.func, ast.Name) and nm.func.id == "str" and nm.args and ctx.type_of(f, nm.args[0]) == ("int",)
                     if not okn:
                         bad_sites.append(f"{f.qualname}:{A.lineno(c)} name={A.unparse(nm) if nm is not None else '?'}")
